@@ -8,7 +8,7 @@ for d in seeded/*/; do
   name=$(basename $d)
   p=$(python3 -c "import json;print(json.load(open('$d/meta.json'))['property'])")
   # seeds whose own property's check does not see them are run against the check that does
-  case $name in C16-agent|C08-agent|C05-agent2|C06-agent3|C13-agent3|C18-agent3) p=C09;; C09-agent3) p=C08;; C14-agent3) p=C10;; esac
+  case $name in C16-agent|C08-agent|C05-agent2|C06-agent3|C13-agent3|C18-agent3) p=C09;; C09-agent3) p=C08;; C14-agent3) p=C10;; C17-agent6) p=C06;; esac
   (cd $R && git apply $OLDPWD/$d/patch.diff) || { echo "$name APPLY-FAILED"; continue; }
   VERIF_REPO=$R VERIF_EVIDENCE=/tmp/rs_evid python3 check.py $p quick > /tmp/rs_$name.txt 2>&1
   rc=$?
